@@ -89,7 +89,19 @@ def c18_live(model, meta):
     op = model["op"]
     problems = []
     known_tag = None
+    import contextlib
+    stack = contextlib.ExitStack()
+    if model.get("oneshot"):
+        # the same round trip inside a oneshot() block whose caches are already filled: a setter followed by its getter
+        # must still report the value just set ("get reads the kernel")
+        stack.enter_context(p.oneshot())
+        for warm in ("name", "cpu_times", "uids", "num_threads", "ppid", "memory_info"):
+            try:
+                getattr(p, warm)()
+            except Exception:  # noqa: BLE001
+                pass
     try:
+      with stack:
         if op == "nice":
             v = model["value"]
             p.nice(v)
@@ -199,8 +211,16 @@ def c18_live_search(meta, seed, budget):
     root = os.geteuid() == 0
     for v in (range(-20, 20) if root else range(0, 20)):
         yield {"op": "nice", "value": v}
+    for v in ((-20, -1, 0, 7, 19) if root else (3, 9, 19)):
+        yield {"op": "nice", "value": v, "oneshot": True}
     if not root:
         return
+    yield {"op": "ionice", "ioclass": 2, "level": 5, "oneshot": True}
+    yield {"op": "ionice", "ioclass": 3, "level": None, "oneshot": True}
+    if len(elig) > 1:
+        yield {"op": "affinity", "cpus": elig[:1], "eligible": elig, "oneshot": True}
+        yield {"op": "affinity", "cpus": elig, "eligible": elig, "oneshot": True}
+    yield {"op": "rlimit", "res": resource.RLIMIT_NOFILE, "soft": 512, "oneshot": True}
     for cls in (0, 1, 2, 3, 0):
         for lvl in (None, 0, 1, 2, 3, 4, 5, 6, 7, 8, -1):
             yield {"op": "ionice", "ioclass": cls, "level": lvl}
@@ -463,6 +483,9 @@ def c17_users_search(meta, seed, budget):
     yield hx([(t, t, b"l", b"u", b"h", t) for t in range(0, 10)])                      # every record type
     yield hx([(7, -1, b"\xff" * 32, b"\xfe" * 32, b"\xfd" * 256, -1)])
     yield hx([(7, i, b"l%d" % i, b"u" * 32, b":0" + b"\0" * 10 + b"junk", i) for i in range(64)])
+    # a reused slot: a shorter value written over a longer one leaves the old tail after the terminating NUL
+    yield hx([(7, 9, b"pts/1\0y/long-old-name", b"bob\0istopher-longname", b"h\0ost.example.org", 9),
+              (7, 10, b"\0tty-old", b"\0olduser", b"\0oldhost", 10)])
     n = 0
     while n < budget:
         n += 1
